@@ -64,6 +64,7 @@ pub fn gen_frag_cfg(r: &mut Rng, o: &FragOpts) -> (FragCfg, Option<av1::SeqHdr>)
         av1_seq: None,
         vp9: None,
         lang: None,
+        path: 0,
     };
     match vcodec {
         H264 => {
@@ -85,7 +86,7 @@ pub fn gen_frag_cfg(r: &mut Rng, o: &FragOpts) -> (FragCfg, Option<av1::SeqHdr>)
             if extras && r.chance(1, 2) {
                 bytes.extend_from_slice(&av1::obu(2, &[], true, None));
             }
-            bytes.extend_from_slice(&av1::obu(1, &hdr.write(), true, None));
+            bytes.extend_from_slice(&av1::obu(1, &hdr.write(), true, if r.chance(1, 10) { Some(r.byte() & 0xf8) } else { None }));
             if extras && r.chance(2, 3) {
                 let n = r.range(1, 12) as usize;
                 bytes.extend_from_slice(&av1::obu(5, &r.bytes(n), true, None));
@@ -190,6 +191,26 @@ pub fn gen_frag_history(r: &mut Rng, o: &FragOpts) -> (FHistory, Option<av1::Seq
     (FHistory { cfg, ops }, side)
 }
 
+/// One fragment of more than 65535 samples (tiny payloads), flushed, followed by a short one.
+pub fn huge_fragment_ops(r: &mut Rng) -> Vec<FOp> {
+    let n = 65_530 + r.below(40) as usize;
+    let step = *r.pick(&[3000u64, 1, 1500]);
+    let reorder = r.chance(1, 3);
+    let mut ops = Vec::with_capacity(n + 8);
+    let mut dts = if r.chance(1, 2) { 0 } else { 90_000 };
+    for k in 0..n + 3 {
+        if k == n {
+            ops.push(FOp::Flush);
+        }
+        let cts: i64 = if reorder { [0i64, 2, -1, 1][k % 4] * step as i64 } else { 0 };
+        let len = r.range(1, 3) as usize;
+        ops.push(FOp::Write { pts: (dts as i64 + cts).max(0) as u64, dts, data: r.bytes(len), sync: k % 250 == 0 });
+        dts += step;
+    }
+    ops.push(FOp::Flush);
+    ops
+}
+
 pub fn gen_frag_ops(r: &mut Rng, o: &FragOpts) -> Vec<FOp> {
     let n = r.range(1, o.max_ops.max(1) as u64) as usize;
     let constant = r.chance(o.constant_interval_pct, 100);
@@ -241,10 +262,12 @@ pub fn gen_frag_ops(r: &mut Rng, o: &FragOpts) -> Vec<FOp> {
             let d = if bad {
                 dts - 1 - r.below(dts.min(5000))
             } else {
-                let inc = match r.below(6) {
+                let inc = match r.below(7) {
                     0 => 0,
                     1 => 1,
                     2 => r.below(100_000),
+                    // a long pause inside the stream (seconds to hours; every gap still fits 32 bits)
+                    3 if r.chance(1, 3) => *r.pick(&[900_000u64, 900_001, 1_000_000, 5_400_000, 1 << 31, (1 << 31) + 1, u32::MAX as u64]),
                     _ => step,
                 };
                 dts.saturating_add(inc)
